@@ -996,7 +996,8 @@ class _Gen:
             params[j] = (p, kind_p, True)
             defaults[p] = self.lo_s(lex, 1)
         caller = self.weighted([(None, 3), (0, 2), (1, 2)])
-        c = lex.child(toplevel=False, emit_hi=result_hi, macro_kind=kind, caller=caller, loop=False)
+        # a macro body never calls self.b() / super(): blocks call macros, so that could recurse
+        c = lex.child(toplevel=False, emit_hi=result_hi, macro_kind=kind, caller=caller, loop=False, blocks=[], super_ok=False)
         c.rowvars = []
         c.lo = [n for n in c.lo if n in LO_DATA or n in ("p0", "p1")] + [p for p, kp, _ in params if kp == "lo"]
         c.hi = [n for n in c.hi if n in ("r0", "r1")] + [p for p, kp, _ in params if kp == "hi"]
